@@ -183,6 +183,15 @@ func frame(vm *goja.Runtime, k string, next goja.Value, id int, obs *[]string, n
 			rethrow(err)
 			return v
 		})
+	case "exportToNoErr":
+		// an exported func type WITHOUT an error result: a script exception travels on as a panic with the *Exception
+		var gf func() goja.Value
+		if err := vm.ExportTo(next, &gf); err != nil {
+			panic(err)
+		}
+		return vm.ToValue(func(call goja.FunctionCall) goja.Value {
+			return gf()
+		})
 	case "ctor":
 		c := vm.ToValue(func(call goja.ConstructorCall) *goja.Object {
 			_, err := nextC(goja.Undefined())
